@@ -1,9 +1,11 @@
-(* Properties3.v — property theorems added after defect D6: the exactly-once callback of Update (C05) and the
-   textbook (Herlihy-Wing) form of C04: histories with every Scan step as an operation of its own.
+(* Properties3.v — property theorems added after defect D6: the exactly-once callback of Update (C05) the
+   textbook (Herlihy-Wing) form of C04 (histories with every Scan step as an operation of its own), and global
+   termination (C06): every execution of a finite set of client programs is finite and ends with every call returned.
    Only statements, each closed by [exact] of a lemma proved elsewhere, each followed by Print Assumptions. *)
 From Coq Require Import List PeanoNat.
 From GB Require Import Model Spec SpecLaws Inv Conc GI Lin LinDef CB_Blocks CB_Count CB_Final.
 From GB Require Import TB_Trace TBs_Def TBs_Sanity TBs_Proof.
+From GB Require Import TG_Finite TG_Stuck TG_Final.
 Import ListNotations.
 
 (* ====================== C05: the callback of Update runs exactly once, on the current value ====================== *)
@@ -94,3 +96,36 @@ Theorem C04_definition_rejects_the_D6_history : ~ linearizable_q Nat.ltb h_bad.
 Proof. exact task_history_not_linearizable. Qed.
 Print Assumptions C04_definition_accepts_a_concurrent_scan.
 Print Assumptions C04_definition_rejects_the_D6_history.
+
+(* ====================== C06: every execution is finite and ends with every call returned ====================== *)
+
+(* Whatever the schedule, the number of steps an execution of the client programs takes is bounded by a number
+   that depends on the programs only: bound = sum over all calls of (3 * P0 + 2 * scan length + 6), where P0 is the
+   number of Insert/Update calls in all programs (the potential that bounds every height the tree can reach). *)
+Theorem C06_every_execution_is_finite :
+  forall (K V : Type) (ltb : K -> K -> bool) (order : nat), SWO ltb -> Nat.even order = true -> 4 <= order ->
+  forall (progs : list (tid * list (cop K V))), NoDup (map fst progs) ->
+  forall sched, length (snd (exec ltb order (init_st progs) sched)) <= bound K V progs.
+Proof. exact execution_length_le_bound. Qed.
+
+(* a reachable state in which no thread can take a step is one in which every thread is idle with an empty
+   program: an execution can only stop because everything has returned (no deadlock, no panic) *)
+Theorem C06_an_execution_stops_only_when_all_calls_returned :
+  forall (K V : Type) (ltb : K -> K -> bool) (order : nat), SWO ltb -> Nat.even order = true -> 4 <= order ->
+  forall (progs : list (tid * list (cop K V))), NoDup (map fst progs) ->
+  forall sched, let s := fst (exec ltb order (init_st progs) sched) in
+  (forall t s' acq ev, cstep ltb order s t <> Stepped s' acq ev) ->
+  forall t th, get_thread t (ths s) = Some th -> tpc th = Idle /\ prog th = [].
+Proof. exact stuck_means_done. Qed.
+
+(* there is no infinite execution: along any infinite sequence of scheduling choices the execution stops growing *)
+Theorem C06_no_infinite_execution :
+  forall (K V : Type) (ltb : K -> K -> bool) (order : nat), SWO ltb -> Nat.even order = true -> 4 <= order ->
+  forall (progs : list (tid * list (cop K V))), NoDup (map fst progs) ->
+  forall f : nat -> tid, exists n, forall m, n <= m ->
+    snd (exec ltb order (init_st progs) (prefix f m)) = snd (exec ltb order (init_st progs) (prefix f n)).
+Proof. exact no_infinite_execution. Qed.
+
+Print Assumptions C06_every_execution_is_finite.
+Print Assumptions C06_an_execution_stops_only_when_all_calls_returned.
+Print Assumptions C06_no_infinite_execution.
